@@ -325,6 +325,24 @@ def part_find_basis(ctx: Ctx, model_usable: bool):
         except Exception as e:  # noqa
             ctx.broken.append(f"model:random matrices failed: {e!r}"[:500])
 
+    # ---- large and high-rank matrices (rank well beyond any machine-word width): implementation vs the independent
+    #      reference only (T@B = V, greedy basis rows, rank) -- circuits with hundreds of independent error parameters
+    big = []
+    for n in ([65, 70, 130, 200] if ctx.quick else [63, 64, 65, 66, 70, 100, 129, 130, 200, 257, 300]):
+        big.append(("identity", np.eye(n, dtype=np.uint8)))
+        P = np.eye(n, dtype=np.uint8)[rng.permutation(n)]
+        extra = (rng.random((max(3, n // 8), n)) < 0.1).astype(np.uint8)
+        big.append(("perm+dependent", np.vstack([P, extra, (extra[:1] ^ P[:1])])))
+        big.append(("dense", (rng.random((n + 7, n)) < 0.5).astype(np.uint8)))
+        big.append(("sparse", ((rng.random((n + 20, n + 30)) < 2.5 / n)).astype(np.uint8)))
+        big.append(("lower-triangular", np.tril(np.ones((n, n), dtype=np.uint8))))
+    for kind, V in big:
+        V = np.ascontiguousarray(V, dtype=np.uint8)
+        B, T, exc = fb.impl(V)
+        fb.judge(V, B, T, exc, f"large-{kind}", ("fbl", V.shape, hashlib.sha1(V.tobytes()).hexdigest()[:12]))
+    ctx.cov["large_matrices"] = len(big)
+    ctx.cov["large_max_rank_shape"] = [max(V.shape[0] for _, V in big), max(V.shape[1] for _, V in big)]
+
     # ---- degenerate shapes and rejected inputs
     degen = {}
     for shp in [(0, 0), (0, 1), (0, 3), (0, 7), (1, 0), (3, 0), (5, 0)]:
